@@ -477,6 +477,28 @@ pub fn gen_file(dna: &mut Dna) -> FileCase {
 
 /// `small`: few segments, embedded plaintexts just above the 1024 byte threshold (cheap containers)
 pub fn gen_file_opts(dna: &mut Dna, small: bool) -> FileCase {
+    if !small && dna.chance(3) {
+        // large file without any embedded stream, mostly incompressible (zstd stores it in raw
+        // blocks): sizes around and beyond 512 KiB
+        let n = dna.range(300 * 1024, 1536 * 1024);
+        let mut m = Mix::new(dna.u64());
+        let compressible_head = dna.below(3) == 0;
+        let mut bytes: Vec<u8> = Vec::with_capacity(n);
+        if compressible_head {
+            bytes.extend(std::iter::repeat(b'x').take(m.range(1, 4000)));
+        }
+        while bytes.len() < n {
+            let b = safe_junk_byte(&mut m);
+            bytes.push(b);
+        }
+        return FileCase {
+            desc: format!("large incompressible file {} bytes", bytes.len()),
+            bytes,
+            labels: vec!["file:large-incompressible".into(), "file:intact".into(), "file:no-embedded-stream".into()],
+            embedded: vec![],
+            mutated: false,
+        };
+    }
     let mut out: Vec<u8> = Vec::new();
     let mut labels: Vec<String> = vec![];
     let mut embedded = vec![];
